@@ -192,6 +192,19 @@ def big_slot(rng):
                        0x360894a13ba1a3210667c828492db98dca3e2076cc3735a920a3ca505d382bbc])
 
 
+def aliasing_pool(rng):
+    """Slot numbers that agree in their low 32 / 64 / 128 / 192 bits (or in their high bits): distinct slots that a
+    truncating comparison, hash or sort key would confuse."""
+    base = rng.choice([0, 1, 7, rng.getrandbits(20), rng.getrandbits(64)])
+    pool = {base}
+    for sh in (32, 64, 128, 192, 255):
+        if rng.random() < 0.7:
+            pool.add((base + (rng.randint(1, 3) << sh)) & ((1 << 256) - 1))
+    hi = rng.getrandbits(128) << 128
+    pool.update({hi | 1, hi | 2})
+    return sorted(pool)
+
+
 def random_ground_truth(rng, nvars=None, slot_pool=None, kinds=None):
     nvars = nvars or rng.randint(1, 12)
     kinds = kinds or ["word", "addr", "mapping", "dynarray", "packed"]
